@@ -36,7 +36,7 @@ struct Case {
 }
 
 fn weights() -> OpWeights {
-	OpWeights { send: 26, claim: 14, fail: 5, deliver: 44, flush: 2, events: 16, forwards: 16, disconnect: 3, reconnect: 8, setfee: 1, async_toggle: 8, complete: 12, pump: 5, ..OpWeights::zero() }
+	OpWeights { send: 26, claim: 14, fail: 5, deliver: 44, flush: 2, events: 16, forwards: 14, decode_adds: 5, disconnect: 3, reconnect: 8, setfee: 1, async_toggle: 8, complete: 12, pump: 5, ..OpWeights::zero() }
 }
 
 fn recovery_weights() -> OpWeights {
@@ -65,7 +65,7 @@ fn strat(max_ops: usize) -> impl Strategy<Value = Case> {
 /// delivered) and a generated tail delivers single messages, handles events, completes persistence and starts
 /// further claims / sends; the crashes fall inside that tail, with a generated manager-snapshot lag.
 fn crossing_strat() -> impl Strategy<Value = Case> {
-	let tail_w = OpWeights { send: 10, claim: 10, fail: 2, deliver: 60, events: 18, forwards: 8, async_toggle: 4, complete: 8, ..OpWeights::zero() };
+	let tail_w = OpWeights { send: 10, claim: 10, fail: 2, deliver: 60, events: 18, forwards: 8, decode_adds: 3, async_toggle: 4, complete: 8, ..OpWeights::zero() };
 	let nondust = || (20u16..30000).prop_map(Amt::Frac);
 	(
 		world_spec(vec![Topology::Pair, Topology::Pair, Topology::Line3]),
@@ -319,7 +319,7 @@ fn oracle_inner(c: &Case, ctx: &mut Ctx, sim: &mut Sim) -> CaseResult {
 /// Crash-point enumeration: for each of `flows` generated short flows, every position between two
 /// operations x every node x {durable, landed} monitors x {newest, previous} manager snapshot.
 fn enumerated_cases(seed: u64, flows: usize) -> Vec<Case> {
-	let fine = OpWeights { send: 24, claim: 14, fail: 4, deliver: 50, events: 16, forwards: 16, async_toggle: 8, complete: 12, reconnect: 2, ..OpWeights::zero() };
+	let fine = OpWeights { send: 24, claim: 14, fail: 4, deliver: 50, events: 16, forwards: 14, decode_adds: 4, async_toggle: 8, complete: 12, reconnect: 2, ..OpWeights::zero() };
 	let st = (
 		world_spec(vec![Topology::Pair, Topology::Line3, Topology::Line3]),
 		proptest::collection::vec(op_strategy(fine), 12..26),
